@@ -800,7 +800,8 @@ def model_check(rep, prop):
     cfg = tlc.render_cfg(_cfg("MCUsb2Ctl.cfg.tmpl"), {"Clean": False, "View": "RefView", "SetupIdx": TlaSet(rows),
                                                       "Addrs": TlaSet(addrs)})
     with _Phase(rep, "model-check"):
-        res = tlc.model_check(SPEC_DIR, "MCUsb2Ctl", cfg, workers=8 if quick else None, timeout=3000,
+        # small graph + per-expression coverage counters: more than a few workers only contend
+        res = tlc.model_check(SPEC_DIR, "MCUsb2Ctl", cfg, workers=2 if quick else 4, timeout=3000,
                               allow_uncovered=MC_UNCOVERED[prop] if quick else ())
     rep.add_mc("MCUsb2Ctl complete reachable graph, SetupTable rows %s, addresses %s + foreign 9" % (rows, addrs), res,
                {"setup_rows": rows, "addresses": addrs, "MaxPkt0": 2, "transfers": "unbounded",
@@ -809,7 +810,7 @@ def model_check(rep, prop):
         # the Env restricted to the clean class must still reach every branch except the carved-out ones
         cfg = tlc.render_cfg(_cfg("MCUsb2Ctl.cfg.tmpl"), {"Clean": True, "View": "CoreView", "SetupIdx": TlaSet(ALL_ROWS),
                                                           "Addrs": TlaSet([0, 5])})
-        res = tlc.model_check(SPEC_DIR, "MCUsb2Ctl", cfg, timeout=3000)
+        res = tlc.model_check(SPEC_DIR, "MCUsb2Ctl", cfg, workers=4, timeout=3000)
         rep.add_mc("MCUsb2Ctl, Env restricted to the clean class (Clean = TRUE)", res, {"Clean": True})
 
 
